@@ -385,3 +385,7 @@ impl Similarity for Mutation {
         }
     }
 }
+
+#[cfg(kani)]
+#[path = "/verif/kani/similarity_defaults.rs"]
+mod verif_kani;
